@@ -617,6 +617,7 @@ def render_gen_rs(items, roots, extra=""):
         out.append("pub fn values_%d() -> Vec<%s> { vec![%s] }" % (i, rust_ty(r), ", ".join(rust_val(r, v) for v in vals)))
     out.append("pub fn dispatch(ty: usize, op: &str, toks: &[&str]) -> String { match ty {")
     for i, (r, vals) in enumerate(roots):
-        out.append("  %d => ops::run::<%s>(op, toks, values_%d)," % (i, rust_ty(r), i))
+        rt = rust_ty(r)
+        out.append("  %d => ops::%s::<%s>(op, toks, values_%d)," % (i, "run_base" if "Cell<" in rt else "run", rt, i))
     out.append("  _ => \"BAD-TYPE\".to_string() } }")
     return "\n".join(out) + "\n", tuples, names
